@@ -197,6 +197,11 @@ func (m *mux) ensureContext(r *http.Request) *chi.Context {
 	if ctx.RoutePattern() != "" {
 		return ctx // already initialized
 	}
+	// The request has not been routed yet (e.g. a middleware is asking): match
+	// on a scratch context. Matching on the request context itself would record
+	// the pattern and the URL params in it a first time, and chi would then
+	// append them a second time when it routes the request.
+	ctx = chi.NewRouteContext()
 	if !m.Router.Match(ctx, r.Method, r.URL.Path) {
 		return nil // route not handled by chi
 	}
